@@ -3,3 +3,6 @@ import Lean.Meta.Tactic.Simp.RegisterCommand
 
 /-- lemmas of the form `f (s.stripBy P) = (f s).stripBy P` / `read (s.stripBy P) = read s` -/
 register_simp_attr kstrip
+
+/-- lemmas that push the sentinel transformation `c.T q` and the renamings toward the leaves (C03, stage 3) -/
+register_simp_attr ksent
